@@ -54,8 +54,17 @@ def run(tier, seed):
         else:
             h = daemon.chk_history(rnd, nreq=rnd.choice([2, 4, 6]))
         hist.append(h)
+    # tasks printed in more than one print buffer, their lengths one apart: what is printed last ends on every position around the
+    # 4096th byte.  These histories run fault-free only (a clean shutdown and restart shows what was lost)
+    nfault = len(hist)
+    # (75 addressees and the fixed lines make about 3900 bytes; with 40..290 more the lines after them straddle the buffer end)
+    for i in range(10 if tier == 'thorough' else 5):
+        for rule in (False, True):
+            hist.append(daemon.brim_history(rnd, 40 + 50 * i if tier != 'thorough' else 25 * i, rule=rule))
     jobs = []
     for hi, (cmds, metas) in enumerate(hist):
+        if hi >= nfault:
+            jobs.append((hi, 0, 'none')); continue
         base = daemon.chk_experiment(drv, spool, cmds, metas)
         calls = [e for e in base['ev'] if e['e'] == 'Sys']
         jobs.append((hi, 0, 'none'))
@@ -73,7 +82,7 @@ def run(tier, seed):
     # died without our doing), e.g. pointers kept into an array across its growth in the all-users checkpoint
     B2 = vlib.build('asan'); drv2 = daemon.build_driver(B2)
     os.environ['ASAN_OPTIONS'] = 'detect_leaks=0:abort_on_error=0:exitcode=99'
-    for hi in range(len(hist)): jobs.append((hi, 0, 'asan'))
+    for hi in range(nfault): jobs.append((hi, 0, 'asan'))
     def one(j):
         hi, k, mode = j
         r = daemon.chk_experiment(drv2 if mode == 'asan' else drv, spool, hist[hi][0], hist[hi][1], k or None, mode if k else None)
@@ -95,7 +104,7 @@ def run(tier, seed):
     unlisted, listed = vlib.classify(PID, bad)
     ncrash = sum(1 for j in jobs if j[2] == 'c'); nfail = sum(1 for j in jobs if j[2] in ('f', 's'))
     cov = {'evaluations': len(recs), 'distinct_nontrivial': len(recs) - nh,
-           'rule': 'one case = (request history, k, mode): the history runs on the real daemon code with its checkpoint system calls (openat/write/close/renameat/unlinkat of .echsq_<uid>.ics) interposed; at the k-th such call the process dies (mode c), or the call fails once with EIO (f), or a write is short (s); then a fresh daemon process loads the spool. Every call of every checkpoint of the history is a fault point (quick: at most 40 per history). Histories: 2 users, fat tasks forcing several 4 KiB flushes, and 17 users overflowing the 16-slot dirty array. every history also runs fault-free on the -fsanitize=address,bounds build. Non-trivial = a fault was injected',
+           'rule': 'one case = (request history, k, mode): the history runs on the real daemon code with its checkpoint system calls (openat/write/close/renameat/unlinkat of .echsq_<uid>.ics) interposed; at the k-th such call the process dies (mode c), or the call fails once with EIO (f), or a write is short (s); then a fresh daemon process loads the spool. Every call of every checkpoint of the history is a fault point (quick: at most 40 per history). Histories: 2 users, fat tasks forcing several 4 KiB flushes, 17 users overflowing the 16-slot dirty array, and (fault-free only) sweeps of 50 tasks of more than 4 KiB whose lengths are one apart, so that a printed piece ends on every position around the end of the print buffer. every history also runs fault-free on the -fsanitize=address,bounds build. Non-trivial = a fault was injected',
            'samples': [{'history': hist[0][0][:3], 'k': jobs[1][1], 'mode': jobs[1][2], 'files': recs[1]['files'], 'armed': recs[1]['armed']}],
            'histories': nh, 'crash_points': ncrash, 'failing_calls': nfail, 'mismatching_experiments': v['nbad'],
            'states': e1['states'] + e1a['states'], 'transitions': e1['transitions'] + e1a['transitions'], 'all_users_checkpoint_model': {'states': e1a['states'], 'actions': e1a['coverage']}, 'traces_validated_against_impl': len(recs),
